@@ -291,6 +291,26 @@ func run(r *core.Run) {
 			l, class, marker = len(v), "lookalike-header", junk
 			r.Tag(fmt.Sprintf("lookalike-header:declared-%d", (i/10)%8))
 		}
+		// directed: text with multi-byte UTF-8 characters whose window boundary falls INSIDE a character. The
+		// window is counted in bytes (plaintext_length), so the stored clear part is exactly k bytes even when
+		// that tears a character; an encryptor that "aligns" the window to a character boundary shows up to
+		// three bytes of the protected part to every reader.
+		if i%10 == 8 {
+			texts := []string{"José García", "Zoë Müller-Lüdenscheidt", "日本語のテキスト", "Ünïcödé ñame €100", "naïve café 😀 emoji"}
+			t := []byte(texts[(i/10)%len(texts)])
+			var cand []int
+			for j := 1; j < len(t); j++ {
+				if t[j]&0xC0 == 0x80 {
+					if side == "left" {
+						cand = append(cand, j)
+					} else {
+						cand = append(cand, len(t)-j)
+					}
+				}
+			}
+			v, k = t, cand[rd.Intn(len(cand))]
+			l, class, marker = len(v), "utf8-window-splits-character", nil
+		}
 		// directed: clear windows with `%` material anywhere (runs of 1–4 `%`, sometimes a whole false header):
 		// judged whenever the model's window condition holds
 		if i%10 == 6 {
